@@ -271,6 +271,12 @@ class DateTime:
         except OSError as err:
             # A timestamp the platform can't represent.
             raise LiquidValueError(str(err), token=None) from err
+        except KeyError as err:
+            # A pattern letter that Babel does not know.
+            raise LiquidValueError(
+                f"invalid datetime format, {err.args[0] if err.args else err}",
+                token=None,
+            ) from err
 
     def _resolve_timezone(
         self,
